@@ -57,36 +57,61 @@ theorem cross_result {k : Unit → SP Ty} {ts : List STok} {x : Ty} {r r' : List
   exact not_NHL_lit_cons List.mem_cons_self _ hF
 
 
-theorem cross_result23 {n : Nat} (ihH : Inj (NHL ["<"]) (gTypeOrHole n)) {ts : List STok} {x : Ty} {r r' : List STok}
-    (h : (x, r) ∈ (do t "result"; t "<"; let ok ← gTypeOrHole n; t ">"; pure (Ty.Result ok none z) : SP Ty) ts)
-    (h' : (x, r') ∈ (do t "result"; t "<"; let ok ← gTypeOrHole n; t ","; let err ← gTypeOrHole n; t ">"; pure (Ty.Result ok err z) : SP Ty) ts) : False := by
-  obtain ⟨r1, e1, h1⟩ := head_of_t h
-  obtain ⟨r2, e2, h2⟩ := head_of_t h1
-  obtain ⟨r1', e1', h1'⟩ := head_of_t h'
-  obtain ⟨r2', e2', h2'⟩ := head_of_t h1'
-  rw [mem_bind_iff] at h2 h2'
-  obtain ⟨ok, r3, hok, h3⟩ := h2
-  obtain ⟨ok', r3', hok', h3'⟩ := h2'
-  obtain ⟨r4, e4, h4⟩ := head_of_t h3
-  obtain ⟨r4', e4', h4'⟩ := head_of_t h3'
-  rw [mem_pure_iff] at h4
-  simp only [mem_bind_iff, mem_pure_iff] at h4'
-  obtain ⟨err, _, _, _, _, _, hx, _⟩ := h4'
-  have hok_eq : ok = ok' := by
-    have := h4.1.symm.trans hx
-    injection this
-  subst hok_eq
-  have er : r2 = r2' := by
-    rw [e1, e2] at e1'
-    rw [e2'] at e1'
-    exact (List.cons.inj (List.cons.inj e1').2).2
-  subst er
-  have := inj_rest_eq ihH hok hok' (by rw [e4]; exact NHL_lit_cons (by decide) _)
-    (by rw [e4']; exact NHL_lit_cons (by decide) _)
-  rw [e4, e4'] at this
-  have := (List.cons.inj this).1
-  revert this; decide
+/-- an alternative whose first part is itself a sequence starting with a terminal, against one starting
+with another terminal -/
+theorem cross_t_assoc {α β} {F : List STok → Prop} {c c' : String} {g : Unit → SP β} {k : β → SP α}
+    {g' : Unit → SP α} (hne : c ≠ c') : Cross F ((t c >>= g) >>= k) (t c' >>= g') := by
+  intro ts x r r' h h' _ _
+  rw [mem_bind_iff] at h
+  obtain ⟨b, r0, h0, _⟩ := h
+  obtain ⟨r1, e1, _⟩ := head_of_t h0
+  obtain ⟨r2, e2, _⟩ := head_of_t h'
+  rw [e1] at e2
+  have := (List.cons.inj e2).1
+  simp only [lit, STok.mk.injEq, true_and] at this
+  exact hne (String.toList_inj.mp this)
 
+/-- `(',' (type | '_'))? '>'` after the first component of a `result`: `result<t>` and `result<t, _>`
+give the same tree, but the first needs `>` and the second `,` at the same place -/
+theorem inj_result_tail {n : Nat} (ihH : Inj (NHL ["<"]) (gTypeOrHole n)) (ok : Option Ty) :
+    Inj (NHL ["<"]) (opt (do t ","; gTypeOrHole n) >>= fun err =>
+      (do t ">"; pure (Ty.Result ok (err.getD none) z) : SP Ty)) := by
+  refine inj_opt_bind
+    (inj_bind (inj_bind_det (det_t _) fun _ => ihH)
+      (fun err => inj_bind_det (det_t _) fun _ => inj_pure _) ?_ (by nd_pres))
+    (inj_bind_det (det_t _) fun _ => inj_pure _)
+    (cross_t_assoc (by decide))
+  intro a a' r r' y s s' h h'
+  simp only [mem_bind_iff, mem_pure_iff, Option.getD_some] at h h'
+  obtain ⟨_, _, _, rfl, _⟩ := h
+  obtain ⟨_, _, _, e, _⟩ := h'
+  injection e
+
+/-- the tail of a `result<` starts with `,` or `>` -/
+theorem pres_result_tail {n : Nat} {ok : Option Ty} {r s : List STok} {y : Ty}
+    (h : (y, s) ∈ (opt (do t ","; gTypeOrHole n) >>= fun err =>
+      (do t ">"; pure (Ty.Result ok (err.getD none) z) : SP Ty)) r) : NHL ["<"] r := by
+  rw [opt_bind, mem_alt_iff] at h
+  rcases h with h | h
+  · rw [mem_bind_iff] at h
+    obtain ⟨_, _, h0, _⟩ := h
+    exact NHL_of_t h0 (by decide)
+  · exact NHL_of_t h (by decide)
+
+/-- two alternatives with the same tag -/
+theorem injT_alt2 {α} {F : List STok → Prop} {tag : α → Nat} {p q1 q2 : SP α} (k : Nat)
+    (hp : InjT F tag k p) (h1 : Inj F q1) (h2 : Inj F q2)
+    (o1 : Out q1 (fun x => tag x = k)) (o2 : Out q2 (fun x => tag x = k))
+    (x12 : Cross F q1 q2) : InjT F tag (k + 1) ((p <+> q1) <+> q2) := by
+  have c : ∀ {q : SP α}, Out q (fun x => tag x = k) → Cross F p q := fun oq =>
+    cross_of_out hp.2 oq fun x h1 h2 => by have h1' : tag x < k := h1; have h2' : tag x = k := h2; omega
+  refine ⟨inj_alt (inj_alt hp.1 h1 (c o1)) h2 (cross_alt (c o2) x12), ?_⟩
+  intro ts x r h
+  simp only [mem_alt_iff] at h
+  rcases h with (h | h) | h
+  · have := hp.2 ts x r h; simp only at this ⊢; omega
+  · have := o1 ts x r h; simp only at this ⊢; omega
+  · have := o2 ts x r h; simp only at this ⊢; omega
 
 def tyTag : Ty → Nat
   | .U8 _ => 0 | .S8 _ => 1 | .U16 _ => 2 | .S16 _ => 3 | .U32 _ => 4 | .S32 _ => 5 | .U64 _ => 6
@@ -111,17 +136,12 @@ theorem inj_gType_aux (fuel : Nat) :
       -- borrow
       refine injT_alt 17 ?_ (inj_bind_det (det_t _) fun _ => inj_bind_det (det_t _) fun _ =>
         inj_bind_det det_gId fun _ => inj_bind_det (det_t _) fun _ => inj_pure _) (by nd_out)
-      -- result, result<a>, result<a, b>
-      refine injT_alt3 16 ?_ (inj_kw _ _)
+      -- result, result<a (, b)?>
+      refine injT_alt2 16 ?_ (inj_kw _ _)
         (inj_bind_det (det_t _) fun _ => inj_bind_det (det_t _) fun _ =>
-          inj_bind ihH (fun ok => inj_bind_det (det_t _) fun _ => inj_pure _) (by nd_inj) (by nd_pres))
-        (inj_bind_det (det_t _) fun _ => inj_bind_det (det_t _) fun _ =>
-          inj_bind ihH (fun ok => inj_bind_det (det_t _) fun _ => inj_bind ihH
-            (fun err => inj_bind_det (det_t _) fun _ => inj_pure _) (by nd_inj) (by nd_pres)) (by nd_inj) (by nd_pres))
-        (by nd_out) (by nd_out) (by nd_out)
+          inj_bind ihH (fun ok => inj_result_tail ihH ok) (by nd_inj) (fun _ _ _ _ h _ => pres_result_tail h))
+        (by nd_out) (by nd_out)
         (fun ts x r r' h h' hF _ => cross_result h h' hF)
-        (fun ts x r r' h h' hF _ => cross_result h h' hF)
-        (fun ts x r r' h h' _ _ => cross_result23 ihH h h')
       -- option
       refine injT_alt 15 ?_ (inj_bind_det (det_t _) fun _ => inj_bind_det (det_t _) fun _ =>
         inj_bind ihT (fun ok => inj_bind_det (det_t _) fun _ => inj_pure _) (by nd_inj) (by nd_pres)) (by nd_out)
